@@ -422,6 +422,22 @@ func c16Extras(c *ctx) {
 		if !ok {
 			continue
 		}
+		// two list types with one wire name ([]*T and []T, finding C01-F2): which of them the maps keep
+		// under that name depends on Go's map iteration order, from call to call
+		collide := false
+		byWire := map[string]reflect.Type{}
+		for k, w := range nmA {
+			if len(w) > 0 && w[0] == '[' && k != w {
+				if t0, ok := byWire[w]; ok && t0 != tmA[k] {
+					collide = true
+				}
+				byWire[w] = tmA[k]
+			}
+		}
+		if collide {
+			c.dist["halves_skipped_wire_name_collision"]++
+			continue
+		}
 		c.eval(fmt.Sprint("halves:", t.String()))
 		var tmB map[string]reflect.Type
 		var nmB map[string]string
